@@ -7,7 +7,7 @@ from ..drive import projection
 
 ID = "C04"
 LEVEL = "exploration"
-PROFILE = {"garbage": 0.15, "ctl": 0.1, "semicolon": False, "sleep": True, "ota": False, "unicode": 0.25}
+PROFILE = {"garbage": 0.15, "ctl": 0.1, "semicolon": False, "sleep": True, "ota": True, "unicode": 0.25}
 
 
 def jobs(tier, seed):
